@@ -73,14 +73,17 @@ def record_one(rt, rng, threads, length, max_rt=12, max_depth=8):
                 registered.add(a["ty"])
             elif kind == "Probe":
                 val.pop("__current__", None)
+                a["resx"] = val.pop("__x__", None) or {}
                 a["res"] = val
             events.append(a)
         # close the trace with a probe in every thread
         for t in threads:
             status, val = w.probe_in(t)
+            ev = {"a": "Probe", "t": t, "res": val}
             if isinstance(val, dict):
                 val.pop("__current__", None)
-            events.append({"a": "Probe", "t": t, "res": val})
+                ev["resx"] = val.pop("__x__", None) or {}
+            events.append(ev)
     finally:
         w.close()
     return events
